@@ -51,6 +51,7 @@ type snapCase struct {
 	Ops        []hOp    `json:"ops"`
 	TornPct    int      `json:"torn_pct,omitempty"`
 	RealFS     bool     `json:"real_fs,omitempty"`
+	SerfLayer  bool     `json:"serf_layer,omitempty"`
 }
 
 var hostileNames = []string{
